@@ -487,7 +487,13 @@ def clean_decision_table(ctx: Ctx, rule: str, all_owners: bool = False) -> None:
         "object_params.get('unset_mode_vms', object_params['unset_mode'])[0]"])
     op_def = [s_ for s_ in ast.walk(rl) if isinstance(s_, ast.Assign) and ast.unparse(s_.targets[0]) == "object_params"]
     exact = exact and len(op_def) == 1 and ast.unparse(op_def[0].value) == f"{rl.target.id}.object_typed_params(self.params)"
-    ok_rev = modes == ["unset_mode_images", "unset_mode_vms"] and len(cmp_f) == 2 and has_else_false and has_break and exact
+    # "some object": the loop stops exactly when the current object is reversible (anything else computes "the last object" or "the first")
+    brk_ifs = [i for i in rl.body if isinstance(i, ast.If) and any(isinstance(x, ast.Break) for x in i.body)]
+    stop_ok = len(brk_ifs) == 1 and norm.equivalent(norm.formula(brk_ifs[0].test), ("atom", "is_reversible")) and rl.body[-1] is brk_ifs[0] and not brk_ifs[0].orelse \
+        and not any(isinstance(x, (ast.Continue, ast.Return)) for x in ast.walk(rl))
+    comb = [s_ for s_ in rl.body if isinstance(s_, ast.AugAssign) and ast.unparse(s_.target) == "is_reversible"]
+    stop_ok = stop_ok and all(isinstance(c_.op, ast.BitOr) for c_ in comb)
+    ok_rev = modes == ["unset_mode_images", "unset_mode_vms"] and len(cmp_f) == 2 and has_else_false and has_break and exact and stop_ok
     ctx.record(rule + "r", "TABLE", fref, "reversible iff some object has unset_mode_images or unset_mode_vms (each falling back to the object's generic unset_mode) starting with 'f'; no objects -> not reversible",
                ok_rev, {"modes": modes, "first_letter_tests": len(cmp_f)},
                "" if ok_rev else "the reversibility test of default_clean_decision changed")
@@ -553,6 +559,27 @@ def clean_decision_table(ctx: Ctx, rule: str, all_owners: bool = False) -> None:
         elif v.path.exit == "raise":
             if PathEnum._raised_name(v.path.exit_node) != "ValueError":
                 problems.append(("unexpected raise in the involved-worker loop", v))
+    # whose copy is asked: the node itself when it is flat or belongs to the picked worker, else that worker's bridged copy
+    sel = [i for i in wl.body if isinstance(i, ast.If) and any(isinstance(x, ast.Assign) and ast.unparse(x.targets[0]) == "picked_node" for x in ast.walk(i))]
+    pick_ok = False
+    if len(sel) == 1:
+        i0 = sel[0]
+        want_own = norm.formula(ast.parse(f"self.is_flat() or {it}.id in self.params['name']", mode="eval").body)
+        own = [ast.unparse(x) for x in i0.body]
+        inner = [l for l in i0.orelse if isinstance(l, ast.For)]
+        pick_ok = norm.equivalent(norm.formula(i0.test), want_own) and own == ["picked_node = self"] and len(inner) == 1 and len(i0.orelse) == 1 \
+            and ast.unparse(inner[0].iter) == "self.bridged_nodes" and isinstance(inner[0].target, ast.Name)
+        if pick_ok:
+            nd = inner[0].target.id
+            ifs2 = [x for x in inner[0].body if isinstance(x, ast.If)]
+            pick_ok = (len(ifs2) == 1 and len(inner[0].body) == 1 and norm.equivalent(norm.formula(ifs2[0].test), norm.formula(ast.parse(f"{it}.id in {nd}.params['name']", mode="eval").body))
+                       and [ast.unparse(x) for x in ifs2[0].body] == [f"picked_node = {nd}", "break"] and not ifs2[0].orelse
+                       and len(inner[0].orelse) == 1 and isinstance(inner[0].orelse[0], ast.Raise))
+        uses = [ast.unparse(c.func.value) for c in calls_in(wl) if call_name(c) == "is_cleanup_ready"]
+        res = [ast.unparse(g.iter) for l in ast.walk(wl) if isinstance(l, ast.ListComp) for g in l.generators]
+        pick_ok = pick_ok and uses == ["picked_node"] and res == ["picked_node.results"]
+    ctx.record(rule + "wp", "PROV", fref, "the copy consulted for an involved worker: the node itself if flat or that worker's own, else the bridged copy carrying that worker's id (none -> ValueError); readiness and statuses are read from that copy",
+               pick_ok, {}, "" if pick_ok else "the clean decision consults another node than the involved worker's own copy (its readiness / running state is read from the wrong worker's bookkeeping)")
     ok3 = not problems and n_false_ready >= 1 and n_false_unknown >= 1 and n_next >= 1
     ctx.record(rule + "w", "TABLE", fref,
                "reversible: for every involved worker (same swarm): its copy not cleanup ready -> False; 'unknown' among its statuses -> False; else next",
